@@ -61,16 +61,18 @@ Section Closing.
     - rewrite IH'. apply Hv. now left.
   Qed.
 
+  (* the reference call kw0 supplies root arguments only; the combination call kw supplies, for the names of the
+     combination c, the root values of kw0 and - for intermediate names - the values the reference call computes *)
   Theorem arg_combination_returns_reference_value o cs c kw v :
     is_output p o = true -> arg_combinations p o = Ok cs -> In c cs ->
     (forall k, In k (akeys kw0) -> is_output p k = false) ->
     eval_top body pick p kw0 o = Ok v ->
     (forall k, In k (akeys kw) <-> In k c) ->
-    (forall k x, is_output p k = true -> aget kw k = Some x -> eval_top body pick p kw0 k = Ok x) ->
-    (forall k, is_output p k = false -> In k (kw_names_read p kw o) -> aget kw k = aget kw0 k) ->
+    (forall k x, aget kw k = Some x ->
+                 if is_output p k then eval_top body pick p kw0 k = Ok x else aget kw0 k = Some x) ->
     eval_top body pick p kw o = Ok v /\ fst (run body pick p o kw false) = Ok (Value v).
   Proof.
-    intros Ho Hcs Hc Hroot0 Hv Hk Hinter Hagree.
+    intros Ho Hcs Hc Hroot0 Hv Hk Hvals.
     set (G := fun k => if is_output p k then aget kw k else None).
     set (L := fill G (dedup (akeys kw))).
     assert (HL : forall k, aget L k = G k).
@@ -80,7 +82,8 @@ Section Closing.
     assert (Hext : forall x, eval_top body pick p (L ++ kw0) x = eval_top body pick p kw0 x).
     { apply extend_computed.
       - apply fill_NoDup, dedup_NoDup.
-      - intros a va Hin. apply fill_In in Hin. unfold G in Hin. destruct (is_output p a) eqn:Ea; [|discriminate]. now apply Hinter.
+      - intros a va Hin. apply fill_In in Hin. unfold G in Hin. destruct (is_output p a) eqn:Ea; [|discriminate].
+        specialize (Hvals a va Hin). now rewrite Ea in Hvals.
       - intros a Ha. apply aget_None_iff. intros H. apply Hroot0 in H.
         assert (Hs : aget L a <> None).
         { intros E. apply aget_None_iff in E. contradiction. }
@@ -89,8 +92,9 @@ Section Closing.
     { apply (unread_keywords_irrelevant body pick p kw (L ++ kw0) o Hwf). intros f cur Hf Hcur Hb.
       rewrite aget_app_str, HL. unfold G. destruct (is_output p cur) eqn:Eo.
       - destruct (aget kw cur) eqn:Ek; [reflexivity|]. symmetry. apply aget_None_iff. intros H. apply Hroot0 in H. congruence.
-      - apply Hagree; [assumption|]. unfold kw_names_read. apply in_flat_map. exists f. split; [assumption|].
-        apply filter_In. split; [assumption|]. apply ahas_false_iff in Hb. now rewrite Hb. }
+      - pose proof (arg_combinations_roots_supplied p o cs c kw Hwf Ho Hcs Hc Hk f cur Hf Hcur Hb Eo) as Hin.
+        destruct (aget kw cur) as [x|] eqn:Ek; [|apply aget_None_iff in Ek; contradiction].
+        specialize (Hvals cur x Ek). rewrite Eo in Hvals. now rewrite Hvals. }
     assert (Hval : eval_top body pick p kw o = Ok v) by now rewrite <- E, Hext.
     split; [assumption|].
     destruct (arg_combinations_accepted body pick p o cs c kw Hwf Ho Hcs Hc Hk) as [_ [_ [_ Hr]]].
